@@ -583,6 +583,27 @@ func (r *runner) contracts() {
 									}
 									mv.RevisionNumber++
 									r.probe(w, "v1 revision not after window start", c0, int64(ws), w.UseV1Revise(fce, mv, 0), h <= ws)
+									// the window that counts is the one of the LATEST revision, also when that revision sits earlier in the
+									// same block: (i) window moved later by an in-block revision - the proof (honest for the challenge the
+									// code derives from the tip) comes before the revised window-start block exists; (ii) window moved up to
+									// this very block - the proof is exactly at the permitted height
+									if h <= ws {
+										tip := w.Hist[len(w.Hist)-1].B.ID()
+										later := fc
+										later.WindowStart, later.WindowEnd = h+2, h+2+b
+										later.RevisionNumber++
+										t1 := w.V1ProofTxn(fce.ID, later, tip)
+										r.probe(w, "v1 proof after an in-block revision that moved the window later", c0, int64(h+2),
+											chain.Use{Name: "v1proof-after-revision", V1: &t1, Resolves: true, SuppFC: []types.FileContractElement{fce}, Before: []chain.Use{w.UseV1Revise(fce, later, 0)}}, false)
+										if h < ws {
+											now := fc
+											now.WindowStart, now.WindowEnd = h, h+b
+											now.RevisionNumber++
+											t2 := w.V1ProofTxn(fce.ID, now, tip)
+											r.probe(w, "v1 proof after an in-block revision that moved the window to this block", c0, int64(h),
+												chain.Use{Name: "v1proof-after-revision", V1: &t2, Resolves: true, SuppFC: []types.FileContractElement{fce}, Before: []chain.Use{w.UseV1Revise(fce, now, 0)}}, true)
+										}
+									}
 									if h < ws {
 										if u, ok := useV1ProofForce(w, fce); ok {
 											r.probe(w, "v1 proof not before the window-start block exists", c0, int64(ws), u, false)
